@@ -141,6 +141,10 @@ func Catalogue(env *world.Env) []CatEntry {
 	withRoles := after(base, uni.SetRole(B0, uni.S, vmcommon.ESDTRoleNFTBurn, vmcommon.ESDTRoleNFTAddQuantity), uni.SetRole(C1, uni.S, vmcommon.ESDTRoleNFTBurn))
 	add("ESDTNFTCreateRoleTransfer/same-shard-next-owner-holds-roles", withRoles, uni.SysCall(A0, vmcommon.BuiltInFunctionESDTNFTCreateRoleTransfer, uni.S, B0))
 	delivery("ESDTNFTCreateRoleTransfer/delivery-next-owner-holds-roles", withRoles, uni.SysCall(A0, vmcommon.BuiltInFunctionESDTNFTCreateRoleTransfer, uni.S, C1))
+	// the role handed to the account that holds it (accepted: role and counter are written back)
+	if _, legs := env.Step(base, uni.SysCall(A0, vmcommon.BuiltInFunctionESDTNFTCreateRoleTransfer, uni.S, A0)); len(legs) > 0 && legs[0].OK() {
+		add("ESDTNFTCreateRoleTransfer/to-the-holder-itself", base, uni.SysCall(A0, vmcommon.BuiltInFunctionESDTNFTCreateRoleTransfer, uni.S, A0))
+	}
 	add("ESDTSetRole/account-holds-roles", withRoles, uni.SetRole(B0, uni.S, vmcommon.ESDTRoleNFTAddURI))
 	add("ESDTUnSetRole/one-of-two", withRoles, uni.UnSetRole(B0, uni.S, vmcommon.ESDTRoleNFTBurn))
 	add("ESDTUnSetRole/last-role", withRoles, uni.UnSetRole(C1, uni.S, vmcommon.ESDTRoleNFTBurn))
